@@ -121,7 +121,13 @@ func newAllowList(k string, raw any, handleKey func(key string, value any) (bool
 			return nil, fmt.Errorf("config `%s` has invalid CIDR: %s. %w", k, rawCIDR, err)
 		}
 
-		ipNet = netip.PrefixFrom(ipNet.Addr().Unmap(), ipNet.Bits())
+		if a := ipNet.Addr(); a.Is4In6() {
+			// ::ffff:a.b.c.d/96+n means a.b.c.d/n
+			if ipNet.Bits() < 96 {
+				return nil, fmt.Errorf("config `%s` has an IPv4-mapped CIDR shorter than /96: %s", k, rawCIDR)
+			}
+			ipNet = netip.PrefixFrom(a.Unmap(), ipNet.Bits()-96)
+		}
 
 		tree.Insert(ipNet, value)
 
@@ -230,7 +236,14 @@ func getRemoteAllowRanges(c *config.C, k string) (*bart.Table[*AllowList], error
 			return nil, fmt.Errorf("config `%s` has invalid CIDR: %s. %w", k, rawCIDR, err)
 		}
 
-		remoteAllowRanges.Insert(netip.PrefixFrom(ipNet.Addr().Unmap(), ipNet.Bits()), allowList)
+		if a := ipNet.Addr(); a.Is4In6() {
+			if ipNet.Bits() < 96 {
+				return nil, fmt.Errorf("config `%s` has an IPv4-mapped CIDR shorter than /96: %s", k, rawCIDR)
+			}
+			ipNet = netip.PrefixFrom(a.Unmap(), ipNet.Bits()-96)
+		}
+
+		remoteAllowRanges.Insert(ipNet, allowList)
 	}
 
 	return remoteAllowRanges, nil
